@@ -2,6 +2,9 @@ package rules
 
 import (
 	"fmt"
+	"go/types"
+	"golang.org/x/tools/go/packages"
+	"strings"
 
 	"verif/checker/internal/lin"
 	"verif/checker/internal/load"
@@ -44,6 +47,7 @@ func CheckC02(c *Ctx) {
 		run.Count("strategy_idle_methods", 1)
 		_ = fi
 	}
+	c.gammaConstructors()
 	for _, g := range shape.GammaTable {
 		run.Assume("Γ " + g.Type + ": " + g.Rel + " — " + g.Why)
 	}
@@ -131,4 +135,71 @@ func (c *Ctx) checkWarmup(fi *load.FuncInfo, r *shape.Result, mode shape.Mode) {
 			run.Violate(report.Finding{Rule: "warmup/phantom", Site: name + "/" + ph.Stage.Construct, Detail: "unchecked receive", Pos: c.P.Pos(ph.Pos), Witness: w, Message: msg})
 		}
 	}
+}
+
+// gammaConstructors: the admissibility table Γ assumes, for some types, relations "because the
+// constructor sets both from one period". Those are proved here: every exported constructor of the
+// type (New<Type>…) returns an object on which the relation holds for all parameter values.
+func (c *Ctx) gammaConstructors() {
+	run := c.Run
+	n := 0
+	for _, g := range shape.GammaTable {
+		if !strings.Contains(strings.ToLower(g.Why), "constructor") {
+			continue
+		}
+		i := strings.Index(g.Type, ".")
+		if i < 0 {
+			continue
+		}
+		rel, tname := g.Type[:i], g.Type[i+1:]
+		var pk *packages.Package
+		for _, p := range c.P.Pkgs {
+			if strings.HasSuffix(load.RelPkg(p.PkgPath), rel) && p.Types.Scope().Lookup(tname) != nil {
+				pk = p
+			}
+		}
+		if pk == nil {
+			run.Break("Γ entry for a type that no longer exists: " + g.Type)
+			continue
+		}
+		for _, fi := range c.P.Decls {
+			if fi.Pkg != pk || fi.Decl.Recv != nil || fi.Decl.Body == nil || !strings.HasPrefix(fi.Fn.Name(), "New"+tname) {
+				continue
+			}
+			if strings.HasSuffix(c.P.Fset.Position(fi.Decl.Pos()).Filename, "_test.go") {
+				continue
+			}
+			// the constructor must return this type (NewKdjStrategy is not a constructor of Kdj)
+			sig := fi.Fn.Type().(*types.Signature)
+			if sig.Results().Len() != 1 {
+				continue
+			}
+			rt := sig.Results().At(0).Type()
+			if p, ok := rt.(*types.Pointer); ok {
+				rt = p.Elem()
+			}
+			if nt, ok := rt.(*types.Named); !ok || nt.Obj().Name() != tname {
+				continue
+			}
+			it := shape.NewInterp(c.P, shape.ModeContracts)
+			it.SkipGamma = map[string]bool{g.Type: true}
+			for _, r := range it.AnalyzeRoot(fi) {
+				obj, ok := r.Ret.(*shape.Object)
+				if !ok {
+					continue
+				}
+				holds, applicable := it.GammaRelation(r.G, obj, g.Rel)
+				if !applicable {
+					continue
+				}
+				n++
+				run.Oblige(holds)
+				if !holds {
+					c.violate("gamma/constructor", load.FuncName(fi.Fn), g.Rel, fi.Decl.Pos(), "the analyses assume "+g.Rel+" for every "+g.Type+" ("+g.Why+"), but "+fi.Fn.Name()+" returns an object for which it does not hold: the warm-up and alignment verdicts do not cover what this constructor builds (its streams differ in length or stall)")
+				}
+			}
+		}
+	}
+	run.Count("gamma_constructor_relations", n)
+	run.Floor("gamma_constructor_relations", 8)
 }
